@@ -1,14 +1,14 @@
 CONSTANTS
   B = 256
-  MemSize = 9
-  PtrVals = {0,1,2}
-  DataInit <- DataReal1
+  MemSize = 10
+  PtrVals = {0,1,2,3}
+  DataInit <- DataReal
   MaxOps = 2
   Dev = "none"
   Gen = TRUE
   NoAls = {TRUE,FALSE}
   Endians = {"le","be"}
-  Menu = {"regs","ld1","ld2","ext","bump","slice","store","delayed"}
+  Menu = {"regs","cst","inc","ld1","ld2","addld","ext","bump","slice","store","ldst","delayed"}
 INIT Init
 NEXT Next
 INVARIANT Lockstep
